@@ -33,7 +33,8 @@ RULE = (
     "differs from header order, or visor and inline members mixed."
 )
 ASSUMPTIONS = [
-    "visor headers are followed directly by the next header; all file data of visor members lives behind the end-of-archive blocks",
+    "visor headers are followed directly by the next header; file data of visor members lives behind the header area (with or "
+    "without end-of-archive blocks in between) or, for aliased members, inside the inline data of an earlier ordinary member",
     "visor members with long names use GNU or PAX long-name records or a ustar prefix of at most 151 bytes (the visor offset field "
     "starts where a longer prefix would continue; a prefix of exactly 151 bytes only with data offsets whose low byte is zero)",
 ]
@@ -87,6 +88,8 @@ def member(draw, idx):
             m["nested"] = {"name": draw(st.sampled_from([f"inner_{idx}", name if len(name.encode()) < 100 else "x", "etc/file1_0"])), "len": draw(st.sampled_from([0, 1, 512, 700])),
                            "end_blocks": draw(st.sampled_from([0, 2]))}
             m["size"] = len(content(m))
+        if kind == "visor-file" and draw(st.integers(0, 7)) == 0:
+            m["alias"] = True  # its data offset points into the inline data of an earlier ordinary member, i.e. in front of its own header
         if kind == "visor-file":
             # the byte behind the 7-byte magic (NUL in the sample, a version digit or space elsewhere) and the regular-file type flags
             m["magic_tail"] = draw(st.sampled_from([0, 0, 0, 0x30, 0x20]))
@@ -107,9 +110,12 @@ def archive_spec(draw, tier):
             m["kind"] = "std-file" if m["kind"] == "visor-file" else "std-dir" if m["kind"] == "visor-dir" else "std-empty"
     visor_files = [i for i, m in enumerate(members) if m["kind"] == "visor-file"]
     order = draw(st.permutations(visor_files)) if draw(st.booleans()) else (list(reversed(visor_files)) if draw(st.booleans()) else visor_files)
+    end_blocks = draw(st.sampled_from([2, 2, 3, 8, 0]))
+    if end_blocks == 0 and (not members or any(m.get("nested") for m in members)):
+        end_blocks = 2  # without an end-of-archive marker a payload that is itself a tar archive would legitimately read on as headers
     return {"members": members, "data_order": list(order), "align": align,
-            "gap": draw(st.sampled_from([0, 0, 1, 5000, 70000])), "end_blocks": draw(st.sampled_from([2, 2, 3, 8])),
-            "trailing": draw(st.sampled_from([0, 0, 512, 10240, 100])), "gzip": draw(st.booleans()), "via": draw(st.sampled_from(["fileobj", "fileobj", "name", "tempfile"])),
+            "gap": draw(st.sampled_from([0, 0, 1, 5000, 70000])), "end_blocks": end_blocks,
+            "trailing": draw(st.sampled_from([0, 0, 512, 10240, 100])), "gzip": draw(st.booleans()), "via": draw(st.sampled_from(["fileobj", "fileobj", "name", "tempfile", "minimal"])),
             # the data area far behind the headers: recorded offsets around and above 2^31 (uncompressed archives, sparse handle)
             "far": draw(st.sampled_from([0, 0, 0, 0, 0x7FFFF000, 0x80000000, 0xC0000000, 0xFFF00000])),
             # bytes in front of the archive inside the same file; the handle is handed over positioned at the archive's start
@@ -174,7 +180,14 @@ def build_sparse(spec):
 
 def build_parts(spec):
     """-> (header area bytes, [(offset, data)] of the visor data area, total length, expected [(name, type, size, data | None)])"""
-    members = spec["members"]
+    members = [dict(m) for m in spec["members"]]
+    alias_src = {}
+    for i, m in enumerate(members):
+        if m["kind"] == "visor-file" and m.get("alias") and not m.get("nested"):
+            src = [j for j in range(i) if members[j]["kind"] == "std-file" and members[j]["size"] >= 1]
+            if src:
+                alias_src[i] = src[-1]
+                m["size"] = min(m["size"], members[src[-1]]["size"])
     headers = []
     for m in members:
         headers.append(bytearray(_header(m)))
@@ -193,9 +206,13 @@ def build_parts(spec):
     cur = max(end_of_headers + spec["gap"], spec.get("far", 0))
     a = spec["align"]
     for i in spec["data_order"]:
+        if i in alias_src:
+            continue
         cur = -(-cur // a) * a
         offsets[i] = cur
         cur += members[i]["size"] + (spec["gap"] % 977)
+    for i, j in alias_src.items():
+        offsets[i] = layout[j] + len(headers[j])
     total = cur + spec["trailing"]
     if max(offsets.values(), default=0) >= 1 << 32:
         raise ValueError("data offset does not fit the 32-bit field")
@@ -217,7 +234,9 @@ def build_parts(spec):
             h[real:] = blk
         out[layout[i] : layout[i] + len(h)] = h
         data = None
-        if k == "visor-file":
+        if k == "visor-file" and i in alias_src:
+            data = content(members[alias_src[i]])[: m["size"]]
+        elif k == "visor-file":
             data = content(m)
             pieces.append((offsets[i], data))
         elif k == "std-file":
@@ -301,6 +320,15 @@ def check(spec) -> Outcome:
                     other.close()
             finally:
                 shutil.rmtree(d, ignore_errors=True)
+        if spec.get("via") == "minimal" and not far and not prefix and not spec["gzip"]:
+            # a duck-typed file object with read / seek / tell / close only
+            from hv.core import MinimalHandle
+
+            t = vmtar.open(fileobj=MinimalHandle(blob))
+            try:
+                return read_all(t)
+            finally:
+                t.close()
         if spec.get("via") == "tempfile" and not far and not prefix:
             # an anonymous temporary file: a handle whose .name is an integer (a file descriptor), not a path
             with tempfile.TemporaryFile() as tf:
